@@ -616,7 +616,11 @@ func (d *PathDecoder) collectInferredReferenceTargetsForBody(addr lang.Address, 
 			blockRef.TargetableFromRangePtr = selfRefBodyRangePtr.Ptr()
 		}
 
-		for i, b := range bCollection.Blocks {
+		for _, b := range bCollection.Blocks {
+			if len(b.Labels) == 0 {
+				// blocks of a map are keyed by their first label
+				continue
+			}
 			elemAddr := append(blockAddr.Copy(), lang.IndexStep{
 				Key: cty.StringVal(b.Labels[0]),
 			})
@@ -644,7 +648,7 @@ func (d *PathDecoder) collectInferredReferenceTargetsForBody(addr lang.Address, 
 			sort.Sort(elemRef.NestedTargets)
 			blockRef.NestedTargets = append(blockRef.NestedTargets, elemRef)
 
-			if i == 0 {
+			if len(blockRef.NestedTargets) == 1 {
 				blockRef.RangePtr = elemRef.RangePtr
 			} else {
 				// try to expand the range of the "parent" (map) reference
